@@ -135,7 +135,7 @@ func init() {
 			"compared with the reference normaliser; plus 42 non-URL strings (all ordered pairs among them and against the grid) for reflexivity/symmetry and list membership; non-trivial = pair of different presentations",
 		Assumptions: []string{"queries in one letter case (outside the stated domain otherwise)", "net/url parsing of the grid IRIs"},
 		Bound: func(tier string) string {
-			return "complete grid of 2304 IRIs: 5.3M ordered pairs x 2 scheme modes; confusable grid of ~310 IRIs (letters that a careless case mapping identifies, percent-encoded = and & in query keys and values, ids colliding under common 32-bit hashes); host grid of 840 IRIs (IPv6 literals differing in address / case / port, explicit default ports, dot segments, query values ending in a slash): 706k ordered pairs x 2 modes; query grid of 242 IRIs (every sequence of <= 4 parameters over x=1,x=2,y=2): 58k ordered pairs x 2 modes; membership in lists of 2..65 members (equivalent member first/last) over a 384-IRI sub-grid; scale grid of 1008 long IRIs (paths ending 64/300/1100 bytes in, queries of 17/33 parameters): 1.0M ordered pairs x 2 modes; 42 strings x (42 + 2304) pairs (same in both tiers); families added after round 5: DESIGN.md 8.11"
+			return "complete grid of 2304 IRIs: 5.3M ordered pairs x 2 scheme modes; confusable grid of ~690 IRIs (letters that a careless case mapping identifies, percent-encoded = and & in query keys and values, ids colliding under common 32-bit hashes); host grid of 840 IRIs (IPv6 literals differing in address / case / port, explicit default ports, dot segments, query values ending in a slash): 706k ordered pairs x 2 modes; query grid of 242 IRIs (every sequence of <= 4 parameters over x=1,x=2,y=2): 58k ordered pairs x 2 modes; membership in lists of 2..65 members (equivalent member first/last) over a 384-IRI sub-grid; scale grid of 1008 long IRIs (paths ending 64/300/1100 bytes in, queries of 17/33 parameters): 1.0M ordered pairs x 2 modes; 42 strings x (42 + 2304) pairs (same in both tiers); families added after round 5: DESIGN.md 8.11"
 		},
 		Run: c14Run,
 	})
@@ -285,8 +285,10 @@ func c14HostGrid() []c14IRI {
 // s), percent-encoded separators inside query keys and values, and ids that collide under common 32-bit hashes.
 func c14ConfusableGrid() []c14IRI {
 	var out []c14IRI
-	for _, p := range []string{"/~\u0130nci", "/~inci", "/~\u0131nci", "/~Inci", "/~INCI", "/\u212a", "/k", "/K", "/\u017f", "/s", "/S"} {
-		for _, q := range []string{"", "?a%3Db=c", "?a=b%3Dc", "?a=b=c", "?a%26b=c", "?a=b%26c", "?a=b&c=", "?a=b&c"} {
+	for _, p := range []string{"/~\u0130nci", "/~inci", "/~\u0131nci", "/~Inci", "/~INCI", "/\u212a", "/k", "/K", "/\u017f", "/s", "/S",
+		"/actors/\u00c9lodie", "/actors/\u00e9lodie", "/actors/\u00c9lodie/", "/actors/\u00e9lodie/", "/x/../actors/\u00c9LODIE", "/\u0416", "/\u0436/", "/\u03a3", "/\u03c3", "/\u03c2"} {
+		for _, q := range []string{"", "?a%3Db=c", "?a=b%3Dc", "?a=b=c", "?a%26b=c", "?a=b%26c", "?a=b&c=", "?a=b&c",
+			"?tag=a,b&tag=c", "?tag=a&tag=b,c", "?tag=,&tag=x", "?tag=&tag=,x", "?tag=c&tag=a,b", "?k=1&k=2,3&k=4", "?k=1,2&k=3&k=4", "?k=a%00b&k=c", "?k=a&k=%00b%00c"} {
 			out = append(out, c14IRI{"https", "e.com", p, q, ""})
 		}
 	}
